@@ -228,7 +228,48 @@ def r06_5(ctx):
     q.need(n_bind >= 1, 'Pool never hands the scan to the result loop')
 
 
+def r06_6(ctx):
+    ctx.rule('R06.6', 'the worker can always receive the soft-timeout signal while a task runs: the handler is installed '
+                      'in after_fork, and whatever blocks a signal in worker code unblocks it again on every way out '
+                      '(normal and exceptional)', floor=1)
+    m = ctx.model
+    af = m.func('pool:Worker.after_fork')
+    inst = [c for (n, c) in q.calls(af, 'signal.signal') if c.args and ast.unparse(c.args[0]) == 'SIG_SOFT_TIMEOUT']
+    ok = bool(inst) and all(len(c.args) == 2 and ast.unparse(c.args[1]) == 'soft_timeout_sighandler' for c in inst)
+    ctx.ob('R06.6', 'after_fork:soft-timeout-handler-installed', ok, af, inst[0] if inst else None,
+           'signal.signal(SIG_SOFT_TIMEOUT, soft_timeout_sighandler)')
+    MASK = ('signal.pthread_sigmask', 'signal.sigprocmask', 'signal.sigblock')
+    maskers = {}
+    for qn, fi in sorted(m.funcs.items()):
+        if fi.module.name == 'pool' and any(isinstance(x, ast.Call) and fi.callee(x) in MASK for x in walk_own(fi.node)):
+            maskers[fi.name if fi.cls is None else fi.qual] = fi
+
+    def blocks(f, c):
+        txt = ' '.join(ast.unparse(a) for a in list(c.args) + [k.value for k in c.keywords])
+        if f.callee(c) in MASK:
+            return 'SIG_BLOCK' in txt and 'SIG_UNBLOCK' not in txt or 'SIG_SETMASK' in txt and '[]' not in txt
+        return any(isinstance(a, ast.Constant) and a.value is True for a in list(c.args) + [k.value for k in c.keywords])
+
+    for qn, fi in sorted(m.funcs.items()):
+        if fi.module.name != 'pool':
+            continue
+        sites = [(n, c) for (n, c) in q.calls(fi, lambda t: t in MASK or t in maskers)]
+        if fi.name in maskers and all(fi.callee(c) in MASK for (n, c) in sites):
+            # the helper itself: judged at its call sites (its argument says which way)
+            if any(isinstance(a_, ast.IfExp) or isinstance(a_, ast.Name) for (n, c) in sites for a_ in c.args[:1]):
+                continue
+        blk = [(n, c) for (n, c) in sites if blocks(fi, c)]
+        unb = [n for (n, c) in sites if not blocks(fi, c)]
+        for (n, c) in blk:
+            ok = bool(unb) and fi.cfg.must_pass([n], [fi.cfg.exit, fi.cfg.raise_exit], unb, completed=True)[0]
+            ctx.ob('R06.6', '%s:signal-unblocked-on-every-way-out' % fi.qual.split(':')[1], ok, fi, c,
+                   'paired with an unblock on normal and exceptional paths' if ok else
+                   '`%s` blocks a signal and some path (an exception of the statement in between) leaves without '
+                   'unblocking it: the worker never sees the soft time limit again' % ast.unparse(c))
+
+
 def run(ctx):
+    r06_6(ctx)
     r06_5(ctx)
     r04_1(ctx, site=_scanner_side, floor=5)
     r05_1(ctx)
